@@ -374,6 +374,13 @@ struct OpGen {
         j.set("d", reg());
         j.set("a", reg());
         j.set("b", reg());
+        if ((j.at("op").as_str() == "widen" || j.at("op").as_str() == "widen_thr") && r.coin()) {
+          // loop-shaped widening: the second operand is the first joined with the
+          // effect of one loop iteration x := x + k on it, so that the operands share
+          // their other constraints and the result is a typical un-closed widening result
+          j.set("step_x", iv());
+          j.set("step_k", (long)(r.coin() ? r.range(1, 5) : -r.range(1, 5)));
+        }
         if (j.at("op").as_str() == "widen_thr") {
           Json ts = Json::arr();
           int n = (int)r.range(0, 4);
@@ -751,7 +758,25 @@ struct Interp {
     if (o == "join" || o == "widen" || o == "widen_thr" || o == "join_with") {
       int d = RI("d"), a = RI("a"), b = RI("b");
       std::vector<Witness> nw = regs[a].wit;
-      nw.insert(nw.end(), regs[b].wit.begin(), regs[b].wit.end());
+      AbsVal::P stepped;
+      if (op.at("step_x").kind == Json::STR && (o == "widen" || o == "widen_thr")) {
+        std::string sx = op.at("step_x").as_str();
+        long sk = (long)op.at("step_k").as_int(1);
+        stepped = regs[a].val->clone();
+        std::vector<Witness> sw = regs[a].wit;
+        if (op.at("step_guard").kind == Json::ARR) { // the loop guard
+          stepped->add_constraints(sys_of(op.at("step_guard")));
+          filter(sw, op.at("step_guard"));
+        }
+        stepped->assign(cx.v(sx), lin_exp_t(cx.v(sx)) + number_t(sk));
+        stepped = regs[a].val->join(*stepped);
+        for (auto w : sw) {
+          w.i[sx] += sk;
+          nw.push_back(w);
+        }
+      } else
+        nw.insert(nw.end(), regs[b].wit.begin(), regs[b].wit.end());
+      const AbsVal &rhs_b = stepped ? *stepped : *regs[b].val;
       AbsVal::P res;
       if (o == "join")
         res = regs[a].val->join(*regs[b].val);
@@ -759,12 +784,12 @@ struct Interp {
         res = regs[a].val->clone();
         res->join_with(*regs[b].val);
       } else if (o == "widen")
-        res = regs[a].val->widen(*regs[b].val);
+        res = regs[a].val->widen(rhs_b);
       else {
         crab::thresholds<number_t> ts;
         for (auto &t : op.at("ts").a)
           ts.add(ikos::bound<number_t>(to_num(mpz_class(t.as_str("0")))));
-        res = regs[a].val->widen_thresholds(*regs[b].val, ts);
+        res = regs[a].val->widen_thresholds(rhs_b, ts);
       }
       regs[d].val = std::move(res);
       regs[d].wit = nw;
@@ -1189,8 +1214,55 @@ Case gen_hist(const std::string &prop, Rng &r, const Tier &t, const std::vector<
   OpGen g(r, nregs, large, bools);
   Json ops = Json::arr();
   int n = (int)r.range(5, t.thorough ? 60 : 35);
-  for (int i = 0; i < n; i++)
+  // loop template (1 history in 4): a register is given the typical invariant of a
+  // counting loop (a bound on y, a difference x - y <= c and a bound on x implied-ish
+  // by both) and is then widened with one more iteration of x := x + k; the result is
+  // the classic un-closed widening result (the bound of x is only implied through y)
+  int tmpl_at = r.chance(1, 4) ? (int)r.below((uint64_t)n) : -1;
+  for (int i = 0; i < n; i++) {
+    if (i == tmpl_at) {
+      long rg = (long)r.below((uint64_t)nregs), rd = (long)r.below((uint64_t)nregs);
+      int xi = (int)r.below(4), yi = (xi + 1 + (int)r.below(3)) % 4;
+      std::string x = "v" + std::to_string(xi), y = "v" + std::to_string(yi);
+      long up = r.coin() ? 1 : -1; // upper-bound form or its mirror image
+      long K = (long)r.range(-5, 20), cc = (long)r.range(-3, 3), m = K + cc - (long)r.range(1, 6);
+      auto cst = [&](long c0, const std::string &a, long ca, const std::string &b, long cb) {
+        LinCst lc;
+        lc.kind = LinCst::LEQ;
+        lc.e.cst = mpz_class(c0);
+        lc.e.add_term(a, mpz_class(ca));
+        if (!b.empty())
+          lc.e.add_term(b, mpz_class(cb));
+        return lc.to_json();
+      };
+      Json a1 = Json::obj();
+      a1.set("op", "assume");
+      a1.set("r", rg);
+      Json cs = Json::arr();
+      cs.push(cst(-K, y, up, "", 0));     // up*y <= K
+      cs.push(cst(-cc, x, up, y, -up));   // up*(x - y) <= cc
+      cs.push(cst(-m, x, up, "", 0));     // up*x <= m
+      a1.set("cs", cs);
+      ops.push(a1);
+      Json w = Json::obj();
+      w.set("op", r.chance(3, 4) ? "widen" : "widen_thr");
+      w.set("d", rd);
+      w.set("a", rg);
+      w.set("b", rg);
+      w.set("step_x", x);
+      long sk = (long)r.range(1, 4);
+      w.set("step_k", up * sk);
+      if (r.chance(3, 4)) { // guarded iteration: the difference constraint survives it
+        Json g = Json::arr();
+        g.push(cst(-(cc - sk), x, up, y, -up)); // up*(x - y) <= cc - sk
+        w.set("step_guard", g);
+      }
+      if (w.at("op").as_str() == "widen_thr")
+        w.set("ts", Json::arr());
+      ops.push(w);
+    }
     ops.push(g.gen(true, benign, alias));
+  }
   Json h = Json::obj();
   h.set("nregs", nregs);
   h.set("ops", ops);
@@ -1682,11 +1754,62 @@ Outcome check_c16(const Case &c, Stats &st) {
         }
         if (!in.apply(op) || out.violated)
           break;
+        // Normalisation invariance: the result of a binary lattice operation
+        // (typically an un-normalised widening result) is cloned twice; one clone
+        // receives an explicit normalize() or a read-only query first; then the same
+        // non-widening operation is applied to both and must give the same meaning.
+        if ((di->caps & CAP_EXACT_EXPORT) &&
+            (o == "widen" || o == "widen_thr" || o == "narrow" || o == "join" || o == "meet" ||
+             o == "join_with" || o == "meet_with")) {
+          int d = (int)((size_t)op.at("d").as_int() % in.regs.size());
+          if (!in.regs[d].val->is_bottom()) {
+            auto nprobe = [&](int benign, const std::function<void(AbsVal &)> &f,
+                              const std::string &what) {
+              if (out.violated)
+                return;
+              AbsVal::P x = in.regs[d].val->clone(), y = in.regs[d].val->clone();
+              bool f5 = hooks().unusual_enabled;
+              hooks().unusual_enabled = false;
+              if (benign == 0)
+                y->normalize();
+              else if (benign == 1)
+                (void)y->at(cx.v(cx.ints[0]));
+              else
+                (void)y->to_lin();
+              f(*x);
+              f(*y);
+              hooks().unusual_enabled = f5;
+              std::string sx = in.snapshot_of(*x), sy = in.snapshot_of(*y);
+              if (sx != sy)
+                in.violation("benign_event_changed_later_result", what,
+                             "after " + o + ": " + what + " gives " + sx + " but " +
+                                 (benign == 0 ? "normalize()" : benign == 1 ? "operator[]" : "to_linear_constraint_system()") +
+                                 " followed by " + what + " gives " + sy);
+            };
+            int benign = (int)(in.step % 3);
+            for (auto &n : cx.ints)
+              nprobe(benign, [&](AbsVal &v) { v.forget(cx.v(n)); }, "forget(" + n + ")");
+            if (cx.ints.size() >= 2) {
+              nprobe(benign, [&](AbsVal &v) { v.assign(cx.v(cx.ints[0]), lin_exp_t(cx.v(cx.ints[1])) + number_t(1)); },
+                     "assign");
+              nprobe(benign, [&](AbsVal &v) {
+                lin_cst_sys_t sys;
+                sys += lin_cst_t(lin_exp_t(cx.v(cx.ints[0])) - lin_exp_t(cx.v(cx.ints[1])), lin_cst_t::INEQUALITY);
+                v.add_constraints(sys);
+              }, "assume");
+              nprobe(benign, [&](AbsVal &v) { v.project({cx.v(cx.ints[0])}); }, "project");
+            }
+            st.inc("normalisation_invariance_probes");
+            if (out.violated)
+              break;
+          }
+        }
       }
       out.hash = in.h;
       // only C16's own monitors are reported here (witness losses are C03's)
       if (out.violated && out.v.monitor != "copy_not_isolated" &&
           out.v.monitor != "copy_differs_from_source" &&
+          out.v.monitor != "benign_event_changed_later_result" &&
           out.v.monitor != "alias_mutation_changed_original" &&
           out.v.monitor.compare(0, 27, "witness_lost_after_benign_") != 0) {
         st.inc("other_property_violation_seen");
@@ -1747,10 +1870,16 @@ Outcome check_c16(const Case &c, Stats &st) {
         // exact-export domains: the final meaning must be identical (two-sided).
         // Widening is not monotone wrt. representation, so histories with
         // widenings are only compared through the witnesses.
-        bool has_widen = false;
+        // A benign event on a value that later becomes the operand of a widening
+        // may legitimately change that widening; a benign event after the last
+        // widening (e.g. on the un-normalised result of one) must not change
+        // anything: only widenings that FOLLOW a benign event disable the comparison.
+        bool has_widen = false, seen_benign = false;
         for (auto &op : c.hist.at("ops").a) {
           std::string o = op.at("op").as_str();
-          if (o == "widen" || o == "widen_thr" || o == "narrow")
+          if (o == "benign" || o == "alias")
+            seen_benign = true;
+          if (seen_benign && (o == "widen" || o == "widen_thr" || o == "narrow"))
             has_widen = true;
         }
         if (!has_widen) {
